@@ -7,6 +7,7 @@ import (
 	"go/token"
 	"go/types"
 	"strings"
+	"sync"
 
 	"golang.org/x/tools/go/ssa"
 )
@@ -31,20 +32,23 @@ type compInfo struct {
 
 // Obligation is one proof goal: decls[:Cut] /\ Guard /\ not Goal must be unsat.
 type Obligation struct {
-	Name   string
-	Kind   string
-	Label  string
-	Func   string
-	Where  string
-	Desc   string
-	Guard  Term
-	Goal   Term
-	Cut    int
-	Block  int // block the obligation belongs to (-1: none): only declarations of its ancestors are included
-	Cover  bool // cover query: expected NOT unsat
-	Result SolverResult
-	OK     bool
-	Hinted bool
+	Name        string
+	Kind        string
+	Label       string
+	Func        string
+	Where       string
+	Desc        string
+	Guard       Term
+	Goal        Term
+	Cut         int
+	Block       int  // block the obligation belongs to (-1: none): only declarations of its ancestors are included
+	Cover       bool // cover query: expected NOT unsat
+	Result      SolverResult
+	OK          bool
+	Hinted      bool
+	FullStatus  string // thorough tier: answer to the full query of a hint-discharged obligation
+	FullSeconds float64
+	LocalPost   bool // from an ensures-local clause: never assumed by callers
 }
 
 type modLoc struct {
@@ -111,6 +115,7 @@ type FuncVC struct {
 
 	assumed       map[string]bool // assumed contracts used (keys)
 	defaulted     map[string]bool // callees handled by the default contract
+	relied        map[string]bool // callees whose (proved) contract was used
 	unsupported   []string
 	notes         []string
 	callSiteN     map[string]int
@@ -127,6 +132,7 @@ type FuncVC struct {
 	declBlock     []int // block index that emitted each decl (-1: entry / global)
 	curB          int
 	ancCache      map[int]map[int]bool
+	ancMu         sync.Mutex
 	safety        bool
 	entryFacts    []Term
 }
@@ -160,6 +166,7 @@ func (vc *FuncVC) reset(dry bool) {
 	vc.funcIDs = map[string]int{}
 	vc.assumed = map[string]bool{}
 	vc.defaulted = map[string]bool{}
+	vc.relied = map[string]bool{}
 	vc.unsupported = nil
 	vc.notes = nil
 	vc.callSiteN = map[string]int{}
@@ -888,6 +895,8 @@ func (vc *FuncVC) ancestors(bi int) map[int]bool {
 	if bi < 0 || vc.fn == nil || bi >= len(vc.fn.Blocks) {
 		return nil
 	}
+	vc.ancMu.Lock() // Query runs on several goroutines
+	defer vc.ancMu.Unlock()
 	if vc.ancCache == nil {
 		vc.ancCache = map[int]map[int]bool{}
 	}
